@@ -379,6 +379,20 @@ type snode struct {
 // project gives what a stringy target with `depth` container levels above its
 // strings (map[string]string: 1, map[string][]string: 2) must receive.
 func (n *snode) project(depth int) any {
+	var hit bool
+	return n.proj(depth, true, &hit)
+}
+
+// refBelowRoot: the projection follows a whole-value reference to a map/list
+// that sits INSIDE a container of a stringy target (mls: {k0: ${list}}) -- the
+// shape of listed finding stringy-container/nested-ref.
+func (n *snode) refBelowRoot(depth int) bool {
+	var hit bool
+	n.proj(depth, true, &hit)
+	return hit
+}
+
+func (n *snode) proj(depth int, root bool, hit *bool) any {
 	if n == nil {
 		return nil
 	}
@@ -386,18 +400,21 @@ func (n *snode) project(depth int) any {
 	case "map":
 		m := map[string]any{}
 		for k, c := range n.M {
-			m[k] = c.project(depth - 1)
+			m[k] = c.proj(depth-1, false, hit)
 		}
 		return m
 	case "list":
 		l := []any{}
 		for _, c := range n.L {
-			l = append(l, c.project(depth-1))
+			l = append(l, c.proj(depth-1, false, hit))
 		}
 		return l
 	}
 	if depth > 0 && n.Sub != nil {
-		return n.Sub.project(depth)
+		if !root {
+			*hit = true
+		}
+		return n.Sub.proj(depth, false, hit)
 	}
 	if n.Raw != nil {
 		return n.Raw
